@@ -3,6 +3,7 @@
 SPECIFICATION Spec
 CONSTANTS
   EmitEdges = FALSE
+  Reqs = "all"
   MaxReq = 2
   Mut = "import-creates-before-validating"
 VIEW view
